@@ -6,6 +6,10 @@ TECH = "contract-based deductive verification: WP/VC generation over the typed G
 
 # id -> (level category, level text, level_note, design_ref)
 CLAIMS = {
+ "C17": ("proof",
+         "Typestate contracts on database.Begin/Commit/Rollback/Close (a transaction is open exactly when d.Transaction != nil; ghost counters of successful commits/rollbacks) and assertions anchored at every return of scripting.Handler: after a successful Begin no return leaves the transaction open; a 2xx reply implies exactly one successful commit after all operations succeeded; a non-2xx reply implies nothing was committed; a failed operation never commits. The task loop and the error-condition loops carry inductive invariants (transaction open, all operations so far succeeded, nothing committed yet). Every operation function (doSQL/doSelect/doRows/doUpdate/doDelete/doInsert/doDrop/doSymbols and their helpers) is under a contract that a non-nil error comes with a non-2xx status, dberrors.* never maps an error to success, util.ErrorResponse returns the normalised status it was given.",
+         "Trusted: database/sql (Tx.Commit/Rollback end the transaction), atomicity of a committed/rolled-back transaction in SQLite/Postgres. Faults of Rollback itself are excluded by an axiom (outside the property's quantifier). That every statement of the task functions runs on the transaction rather than the bare handle is by the Database.Exec/Query wrappers (not separately claimed). Sequential semantics.",
+         "§7 C17"),
  "C20": ("proof",
          "The handler dispatch in router.ServeHTTP is a guarded sink: on every path that reaches it the route's authentication requirement is met (for every combination of route flags, lightweight routes included) and every required permission was granted to the identity the permission loop examined (or the session is an administrator), with an inductive invariant over the permission loop. Session.Authenticate is under contract (Authenticated only after a JWT validated, an unexpired cached token, a token that unwrapped or a password that validated; Admin implies Authenticated; locked-out sessions are not authenticated), as are the route builders (Authentication, LightWeight, Permissions store the declared requirements), auth.GetPermission/GetPermissions/findPermission, util.InListInsensitive and util.ErrorResponse. The frame (no intervening call changes the route flags or the session's authentication state) comes from the writer index and typed call graph recomputed on every run.",
          "Trusted: the user store interface (userIOService) as a record store; oauth.ValidateJWT (C22), auth.TokenUnwrap/tokens.Unwrap (C27/C21), auth.ValidatePassword (C25) are used through their contracts or results; TokenCache entries are trusted to be what was inserted (insertion site asserted). Frame assumptions about leaf library code are listed in the evidence. Sequential semantics. The route table itself needs no per-route obligation: the sink assertions hold for every value of the route flags.",
